@@ -11,7 +11,7 @@ ASSUMPTIONS = [
     "the real processors run natively inside solana-program-test 3.0.12 (vendored patches under harness/vendor), overflow checks off",
 ]
 FOOTPRINT = {12,13,14}
-FAMILIES = [("bank-directed", (22, 0), (22, 0), ()), ("bank-rd", (16, 140), (48, 260), ())]
+FAMILIES = [("bank-directed", (23, 0), (23, 0), ()), ("bank-rd", (16, 140), (48, 260), ())]
 
 def run(ctx, v):
     pure = pure_shares.run_pure(ctx, v, kinds=['recipients'], tag='C16')
